@@ -9,30 +9,21 @@
    Malformed / EOF on in-memory data".  seq_scan is SequentialScan: locateObjects,
    checkObjects (Malformed or EOF => Broken, since the fix of F5).
 
-   _partial: the theorems are proved for scan_ideal, the marker search WITHOUT the buffer
-   windows of scanner.Find.  The full statements (for scan_windows, the faithful model of
-   the code as it is now) are false: window_refuted. *)
+   scan_windows is scanner.Find as it is: a 1024-byte buffer, 64 bytes of overlap, every
+   search on the slice buf[pos:used].  The theorems are about scan_windows.  They hold for
+   TAME files whose header lies within the first buffer (h <= 1024, which NewReader requires
+   of every file): at every position that follows a CR or LF
+     (stable) the line does not begin with marker text that a word character follows
+              (`12 0 objx`, `xrefs`): only there could a cut - the end of a search window or
+              of a truncated file - turn a non-marker into a marker;
+     (short)  a marker text is at most regexpOverlap = 64 bytes long (an object header with
+              more than ~50 bytes of digits and blanks could straddle two windows unseen).
+   tame is decidable (tameb) and is inherited by every prefix.  These two conditions are the
+   whole residual gap between scanner.Find and the search without windows (windows_eq_ideal). *)
 From Coq Require Import List NArith ZArith Bool.
 From GoPdf.Base Require Import Bytes Res.
-From GoPdf.C20 Require Import SeqScan SeqScanProofs.
+From GoPdf.C20 Require Import SeqScan SeqScanProofs MarkerFacts WindowProofs WindowTheorems.
 Import ListNotations.
-
-(* The full statement of prefix_complete for the code as it is (kept visible; false). *)
-Definition prefix_complete_statement : Prop :=
-  forall (V : Type) (parse : bytes -> pres V) pre h cs tail i c n,
-    pre_ok pre h ->
-    (forall c', In c' cs -> chunk_scan_ok V c') ->
-    chunk_parse_stable V parse c ->
-    (forall s, parse s <> POther) ->
-    nth_error cs i = Some c ->
-    (length pre + length (flat V (firstn i cs)) + length (ck_bytes V c) <= n)%nat ->
-    let data := firstn n (pre ++ flat V cs ++ tail) in
-    exists objs,
-      seq_scan (scan_windows data) (pc_of V parse data) = Ok objs
-      /\ In {| co_obj := chunk_marker_obj V (length pre + length (flat V (firstn i cs))) c;
-               co_broken := false; co_val := Some (ck_val V c) |} objs
-      (* and nothing that is not at the beginning of a line is located *)
-      /\ (forall o, In o objs -> fo_start (co_obj o) = 0%nat \/ is_eol (nth (fo_start (co_obj o) - 1) data 0%N) = true).
 
 (* Documentation: BEFORE fix F24 scanner.Find's `^` alternative matched at the beginning of
    every search slice: the text "2 0 obj (x) endobj" in the middle of a line of a string, at
@@ -48,11 +39,25 @@ Theorem window_pre_F24_refuted :
 Proof. exists window_witness. exact window_witness_facts. Qed.
 Print Assumptions window_pre_F24_refuted.
 
+(* scanner.Find with its buffer windows finds exactly the markers of the search without
+   windows *)
+Theorem windows_eq_ideal :
+  forall data hs h v,
+    find_start data = Some (hs, h, v) -> (h <= buf_size)%nat -> tame data ->
+    scan_windows data = scan_ideal data.
+Proof. exact windows_eq_ideal_lemma. Qed.
+Print Assumptions windows_eq_ideal.
+
+Theorem tame_prefix : forall data n, tame data -> tame (firstn n data).
+Proof. exact tame_firstn. Qed.
+Print Assumptions tame_prefix.
+
 (* every prefix (a crash at any byte n) that contains the end of chunk i lists object i at its
    true offset, not broken, with its value *)
-Theorem prefix_complete_partial :
+Theorem prefix_complete :
   forall (V : Type) (parse : bytes -> pres V) pre h cs tail i c n,
-    pre_ok pre h ->
+    pre_ok pre h -> (h <= buf_size)%nat ->
+    tame (pre ++ flat V cs ++ tail) ->
     (forall c', In c' cs -> chunk_scan_ok V c') ->
     chunk_parse_stable V parse c ->
     (forall s, parse s <> POther) ->
@@ -60,51 +65,55 @@ Theorem prefix_complete_partial :
     (length pre + length (flat V (firstn i cs)) + length (ck_bytes V c) <= n)%nat ->
     let data := firstn n (pre ++ flat V cs ++ tail) in
     exists objs,
-      seq_scan (scan_ideal data) (pc_of V parse data) = Ok objs
+      seq_scan (scan_windows data) (pc_of V parse data) = Ok objs
       /\ In {| co_obj := chunk_marker_obj V (length pre + length (flat V (firstn i cs))) c;
                co_broken := false; co_val := Some (ck_val V c) |} objs.
-Proof. exact prefix_complete_lemma. Qed.
-Print Assumptions prefix_complete_partial.
+Proof. exact prefix_complete_w. Qed.
+Print Assumptions prefix_complete.
 
 (* the general form: whatever follows a complete chunk - nothing, or LF and arbitrary bytes *)
-Theorem complete_chunk_listed_partial :
+Theorem complete_chunk_listed :
   forall (V : Type) (parse : bytes -> pres V) pre h cs1 c t,
-    pre_ok pre h ->
+    pre_ok pre h -> (h <= buf_size)%nat ->
     (forall c', In c' cs1 -> chunk_scan_ok V c') -> chunk_scan_ok V c ->
     chunk_parse_stable V parse c ->
     (forall s, parse s <> POther) ->
     follows t ->
     let data := pre ++ flat V cs1 ++ ck_bytes V c ++ t in
+    tame data ->
     let off := (length pre + length (flat V cs1))%nat in
     exists objs,
-      seq_scan (scan_ideal data) (pc_of V parse data) = Ok objs
+      seq_scan (scan_windows data) (pc_of V parse data) = Ok objs
       /\ In {| co_obj := chunk_marker_obj V off c; co_broken := false; co_val := Some (ck_val V c) |} objs.
-Proof. exact complete_chunk_listed. Qed.
-Print Assumptions complete_chunk_listed_partial.
+Proof. exact complete_chunk_listed_w. Qed.
+Print Assumptions complete_chunk_listed.
 
 (* if one complete object is present the scan does not fail outright ... *)
-Theorem no_abort_partial :
+Theorem no_abort :
   forall (V : Type) (parse : bytes -> pres V) pre h cs1 c t,
-    pre_ok pre h ->
+    pre_ok pre h -> (h <= buf_size)%nat ->
     (forall c', In c' cs1 -> chunk_scan_ok V c') -> chunk_scan_ok V c ->
     chunk_parse_stable V parse c ->
     (forall s, parse s <> POther) ->
     follows t ->
-    exists objs, seq_scan (scan_ideal (pre ++ flat V cs1 ++ ck_bytes V c ++ t))
+    tame (pre ++ flat V cs1 ++ ck_bytes V c ++ t) ->
+    exists objs, seq_scan (scan_windows (pre ++ flat V cs1 ++ ck_bytes V c ++ t))
                           (pc_of V parse (pre ++ flat V cs1 ++ ck_bytes V c ++ t)) = Ok objs.
-Proof. exact no_abort_lemma. Qed.
-Print Assumptions no_abort_partial.
+Proof. exact no_abort_w. Qed.
+Print Assumptions no_abort.
 
 (* ... and an incomplete trailing object is reported as broken *)
-Theorem trailing_broken_partial :
-  forall (V : Type) (parse : bytes -> pres V) pre cs1 c k objs o,
+Theorem trailing_broken :
+  forall (V : Type) (parse : bytes -> pres V) pre h cs1 c k objs o,
+    pre_ok pre h -> (h <= buf_size)%nat ->
     chunk_prefix_fails V parse c -> (k < length (ck_bytes V c))%nat ->
     let data := pre ++ flat V cs1 ++ firstn k (ck_bytes V c) in
-    seq_scan (scan_ideal data) (pc_of V parse data) = Ok objs ->
+    tame data ->
+    seq_scan (scan_windows data) (pc_of V parse data) = Ok objs ->
     In o objs -> fo_start (co_obj o) = (length pre + length (flat V cs1))%nat ->
     co_broken o = true.
-Proof. exact trailing_broken_lemma. Qed.
-Print Assumptions trailing_broken_partial.
+Proof. exact trailing_broken_w. Qed.
+Print Assumptions trailing_broken.
 
 (* checkObjects: Broken exactly when the parse did not succeed; it aborts only on other errors *)
 Theorem broken_iff_parse_failed :
@@ -116,19 +125,20 @@ Print Assumptions broken_iff_parse_failed.
 
 (* overwriting the cross-reference data / startxref with bytes that contain no object header
    at the beginning of a line changes neither the located objects nor their values *)
-Theorem xref_damage_partial :
+Theorem xref_damage :
   forall (V : Type) (parse : bytes -> pres V) pre h cs tail tail',
-    pre_ok pre h ->
+    pre_ok pre h -> (h <= buf_size)%nat ->
     (forall c, In c cs -> chunk_scan_ok V c) ->
     (forall c, In c cs -> chunk_parse_stable V parse c) ->
     (forall s, parse s <> POther) ->
     cs <> [] -> object_free tail -> object_free tail' ->
-    seq_scan (scan_ideal (pre ++ flat V cs ++ tail')) (pc_of V parse (pre ++ flat V cs ++ tail'))
-    = seq_scan (scan_ideal (pre ++ flat V cs ++ tail)) (pc_of V parse (pre ++ flat V cs ++ tail))
-    /\ seq_scan (scan_ideal (pre ++ flat V cs ++ tail)) (pc_of V parse (pre ++ flat V cs ++ tail))
+    tame (pre ++ flat V cs ++ tail) -> tame (pre ++ flat V cs ++ tail') ->
+    seq_scan (scan_windows (pre ++ flat V cs ++ tail')) (pc_of V parse (pre ++ flat V cs ++ tail'))
+    = seq_scan (scan_windows (pre ++ flat V cs ++ tail)) (pc_of V parse (pre ++ flat V cs ++ tail))
+    /\ seq_scan (scan_windows (pre ++ flat V cs ++ tail)) (pc_of V parse (pre ++ flat V cs ++ tail))
        = Ok (chunk_cobjs V (length pre) cs).
-Proof. exact xref_damage_same. Qed.
-Print Assumptions xref_damage_partial.
+Proof. exact xref_damage_w. Qed.
+Print Assumptions xref_damage.
 
 (* locateObjects loses no candidate and keeps the scan order, whatever the markers *)
 Theorem locate_keeps_objects :
@@ -176,3 +186,14 @@ Example object_free_ex : object_free [120; 114; 101; 102; 10; 48; 32; 51; 10; 11
 Proof.
   split; intros off; rewrite ideal_scan_shift; vm_compute; reflexivity.
 Qed.
+
+(* a whole file: header, the chunk, an xref table, trailer, startxref; it is tame *)
+Definition ex_file : bytes :=
+  ex_pre ++ ex_chunk_bytes ++ [10]%N
+  ++ [120; 114; 101; 102; 10; 48; 32; 49; 10; 116; 114; 97; 105; 108; 101; 114; 10; 60; 60; 62; 62; 10;
+      115; 116; 97; 114; 116; 120; 114; 101; 102; 10; 52; 55; 10; 37; 37; 69; 79; 70; 10]%N.
+Example tame_ex : tame ex_file /\ (9 <= buf_size)%nat.
+Proof. split; [apply tameb_tame; vm_compute; reflexivity|vm_compute; repeat constructor]. Qed.
+(* and a line that begins with `xrefs` is what tameness excludes *)
+Example not_tame_ex : tameb ([10; 120; 114; 101; 102; 115; 10]%N) = false.
+Proof. vm_compute. reflexivity. Qed.
